@@ -10,6 +10,7 @@ ASSUMPTIONS = [
     "reachable by any series of accepted updates; one update or one rendering follows",
     "update dictionaries: symbolic presence per amino-acid key, symbolic values over the 17 names plus 'pink', '', 'redd', 3; one extra key 'X' may be present; "
     "mixed-case colour names are not asserted (the two docstrings disagree)",
+    "rendering is checked as the SECOND rendering of an object: it was rendered before under another arbitrary valid palette (any series of accepted updates in between)",
     "the rendered string is compared piecewise with the expected markup (exact string equality); 'stripping the markup recovers the sequence' follows from it",
 ]
 OUTSIDE = ["sequences longer than the bound; in the thorough tier positions other than the block boundaries are concrete letters", "mixed-case colour names"]
@@ -83,10 +84,19 @@ def run_item(item):
             return "".join(AA[m.eval(v, model_completion=True).as_long()] if v is not None else c for v, c in zip(vs_all, chars))
 
         def cex(m):
-            return dict(kind="render", seq=seq_of(m), palette=palette_of(m, pv))
+            return dict(kind="render", seq=seq_of(m), palette=palette_of(m, pv), earlier_palette={a: COL[m.eval(pv0[a], model_completion=True).as_long()] for a in AA})
+
+        pv0, pal0 = {}, {}
+        for a in AA:
+            pv0[a] = z3.Int("pal0_%s" % a)
+            I.solver.add(pv0[a] >= 0, pv0[a] < len(COL))
+            pal0[a] = FD([(pv0[a] == k, COL[k]) for k in range(len(COL))])
 
         def thunk():
             sp = I.call(SequenceParameters, [s], {})
+            # history: the sequence was rendered before under another (arbitrary valid) palette; the palette then changed
+            sp.SeqObj.aminoAcidColorMap = dict(pal0)
+            I.call(sp.get_HTMLColorString, [], {})
             sp.SeqObj.aminoAcidColorMap = dict(pal)
             return I.call(sp.get_HTMLColorString, [], {})
 
@@ -183,7 +193,12 @@ def run_item(item):
 def replay(cex):
     from localcider.sequenceParameters import SequenceParameters
     sp = SequenceParameters(cex["seq"])
-    sp.SeqObj.aminoAcidColorMap = dict(cex["palette"])
+    if cex["kind"] == "render" and cex.get("earlier_palette"):
+        sp.set_HTMLColorResiduePalette(dict(cex["earlier_palette"]))
+        sp.get_HTMLColorString()
+        sp.set_HTMLColorResiduePalette(dict(cex["palette"]))
+    else:
+        sp.SeqObj.aminoAcidColorMap = dict(cex["palette"])
     if cex["kind"] == "render":
         try:
             got = sp.get_HTMLColorString()
